@@ -14,7 +14,7 @@ META = dict(
     functions=['scared.distinguishers.base:DistinguisherMixin.update/_check', 'scared.distinguishers.cpa:CPADistinguisherMixin._initialize/_update', 'scared.distinguishers.dpa:DPADistinguisherMixin._initialize/_update',
                'scared.distinguishers.partitioned:_PartitionnedDistinguisherBaseMixin._initialize/_update', 'scared.distinguishers.mia:MIADistinguisherMixin',
                'scared.distinguishers.template:_TemplateBuildDistinguisherMixin._check', 'scared.distinguishers.template:_BaseTemplateAttackDistinguisherMixin._initialize/_update'],
-    bounds=dict(quick='9 distinguishers x every rejection kind that applies (row-count mismatch, trace length change, word count change, non-array arguments, DPA data outside {0,1}, '
+    bounds=dict(quick='9 distinguishers x every rejection kind that applies (row-count mismatch, trace length change, word count change, 3-D / 1-D / text traces, non-array arguments, DPA data outside {0,1}, '
                       'automatic classes with a value above 255, template data with two words, matching before build), inserted as the very first call and after an accepted batch '
                       'whose trace values are symbolic; followed by an accepted batch and compute()',
                 thorough='same with three accepted batches before the rejection'),
@@ -23,7 +23,7 @@ META = dict(
     outside=['exceptions raised in the middle of an accumulation kernel (no such path exists for valid dtypes)'],
     stubs=['time.process_time: symbolic clock', 'numba kernels interpreted'],
 )
-KINDS = ['rows', 'length', 'words', 'type-traces', 'type-data', 'dpa-range', 'auto-255', 'auto-bad-dtype', 'template-2words', 'template-auto-2words', 'match-before-build']
+KINDS = ['rows', 'length', 'words', 'traces-3d', 'traces-1d', 'traces-text', 'type-traces', 'type-data', 'dpa-range', 'auto-255', 'auto-bad-dtype', 'template-2words', 'template-auto-2words', 'match-before-build']
 DISTS = ['CPA', 'CPAAlt', 'DPA', 'ANOVA', 'SNR-auto', 'NICV', 'MIA', 'TemplateBuild', 'TemplateBuild-auto', 'TemplateMatch']
 
 
@@ -103,6 +103,12 @@ def bad_call(dist, kind, pos):
         if dist == 'DPA':
             return x, S.const(rnp.array([[0, 1, 1], [1, 1, 0]], dtype='uint8'))
         return x, S.const(rnp.array([[0, 1, 2], [2, 1, 0]], dtype='uint8'))
+    if kind == 'traces-3d':         # passes the length test of the concrete _update when the second dimension matches
+        return (S.sym_real('x3', (2, 2, 2), 'float64') if dist != 'MIA' else S.const(rnp.ones((2, 2, 2), dtype='uint8'))), y
+    if kind == 'traces-1d':
+        return (S.sym_real('x1', (2,), 'float64') if dist != 'MIA' else S.const(rnp.ones((2,), dtype='uint8'))), y
+    if kind == 'traces-text':       # an array that cannot be converted to the working precision
+        return (S.const(rnp.array([['a', 'b'], ['c', 'd']])), y) if dist in ('CPA', 'CPAAlt', 'DPA') else None
     if kind == 'auto-bad-dtype':
         # automatic classes: the first call passes _initialize (range 0..63 chosen) and is then refused by the class lookup (int64 data)
         return (x, S.const(rnp.array([[0, 60], [1, 1]], dtype='int64'))) if dist == 'SNR-auto' and pos == 'first' else None
@@ -155,6 +161,9 @@ def run_job(job):
             wit = lambda m, kind=kind: dict(kind='reject', dist=dist, rejection=kind, pos=pos, pre=job['pre'], key=dict(kind='reject', dist=dist, rejection=kind, pos=pos))  # noqa: E731
             if raised is None:
                 res['notes'].append(desc + ': the call was accepted (not a rejection)')
+                continue
+            if isinstance(raised, E.ShimUnsupported):
+                res['notes'].append(desc + f': not modelled ({raised}); skipped')          # a limit of the shim, not a refusal by the code
                 continue
             changed = L.same_snapshot(before, L.snapshot(obj))
             extra = sorted(set(vars(obj)) - keys_before)
@@ -226,7 +235,8 @@ def replay(w):
             y = np.array([[0, 1], [2, 1], [1, 1]][:rows], dtype='uint8')
         return x, y
     x, y = good()
-    bad = {'rows': (x, y[:1]), 'length': (np.ones((2, 3), dtype=x.dtype), y), 'words': (x, np.array([[0, 1, 1], [1, 1, 0]], dtype='uint8')),
+    bad = {'rows': (x, y[:1]), 'traces-3d': (np.ones((2, 2, 2), dtype=x.dtype), y), 'traces-1d': (np.ones((2,), dtype=x.dtype), y), 'traces-text': (np.array([['a', 'b'], ['c', 'd']]), y),
+           'length': (np.ones((2, 3), dtype=x.dtype), y), 'words': (x, np.array([[0, 1, 1], [1, 1, 0]], dtype='uint8')),
            'auto-bad-dtype': (x, np.array([[0, 60], [1, 1]], dtype='int64')), 'template-auto-2words': (x, np.array([[0, 60], [1, 0]], dtype='uint8')),
            'type-traces': ([[1.0, 2.0], [3.0, 4.0]], y), 'type-data': (x, [[0, 1], [1, 0]]), 'dpa-range': (x, np.array([[0, 3], [1, 1]], dtype='uint8')),
            'auto-255': (x, np.array([[0, 300], [1, 1]], dtype='uint16')), 'template-2words': (x, np.array([[0, 1], [1, 0]], dtype='uint8')), 'match-before-build': (x, y)}[kind]
